@@ -187,7 +187,7 @@ func PolicyCollections(
 	}, opts.WithName("AuthzDerivedPolicies")...)
 
 	PeerAuthByNamespace := krt.NewIndex(peerAuths, "namespaceWithSelector", func(p *securityclient.PeerAuthentication) []string {
-		if p.Spec.GetSelector() == nil {
+		if !peerAuthnSelectsWorkloads(p) {
 			return []string{p.GetNamespace()}
 		}
 		return nil
@@ -211,7 +211,7 @@ func PolicyCollections(
 	PeerAuthDerivedPolicies := krt.NewCollection(peerAuths, func(ctx krt.HandlerContext, i *securityclient.PeerAuthentication) *model.WorkloadAuthorization {
 		meshCfg := krt.FetchOne(ctx, meshConfig.AsCollection())
 		// violates case #1, #2, or #3
-		if i.Namespace == meshCfg.GetRootNamespace() || i.Spec.GetSelector() == nil || len(i.Spec.PortLevelMtls) == 0 {
+		if i.Namespace == meshCfg.GetRootNamespace() || !peerAuthnSelectsWorkloads(i) || len(i.Spec.PortLevelMtls) == 0 {
 			log.Debugf("skipping PeerAuthentication %s/%s for ambient since it isn't a workload policy with port level mTLS", i.Namespace, i.Name)
 			return nil
 		}
